@@ -8,6 +8,15 @@ foreach k, v : {'ZETA': 1, 'ALPHA': 'a', 'MID': true, 'BETA': 0, 'OMEGA': 'w', '
   cdata.set(k, v)
 endforeach
 cdata.set_quoted('NAME', meson.project_name())
+# answers of compiler checks (cached in coredata between runs) that end up in generated files; -Wnon-virtual-dtor is accepted
+# by gcc for C with a warning on stderr only
+cc = meson.get_compiler('c')
+supp = cc.get_supported_arguments(['-Wnon-virtual-dtor', '-Wmissing-prototypes', '-Wno-such-warning-at-all'])
+cdata.set('HAS_NVD', cc.has_argument('-Wnon-virtual-dtor'))
+cdata.set('N_SUPPORTED', supp.length())
+cdata.set('HAS_STDIO', cc.has_header('stdio.h'))
+cdata.set('SIZEOF_INT', cc.sizeof('int'))
+add_project_arguments(supp, language: 'c')
 configure_file(output: 'config.h', configuration: cdata)
 configure_file(input: 'tmpl.in', output: 'tmpl.out', configuration: cdata)
 add_project_arguments('-DPROJ_B', '-DPROJ_A', language: 'c')
